@@ -59,7 +59,9 @@ HAZ = ["-", "+", "*", ">", "#", "##", "1.", "2)", "10.", "---", "===", "=", "--"
 INFO = ["", "", "python", "sh -x", "c++", "text title=\"a b\"", "{.cls #id}"]
 CODE_LINES = ["x = 1", "", "  indented", "> not quote", "- not list", "# no heading", "\ttab", "trailing  ", "1. n",
               "    deep", "a `b` c", "it's \"q\"...", "<b>&amp;</b>", "{% t %}", "[l]: http://u", "| a | b |", "***",
-              "\\", "http://x.y", "end \\"]
+              "\\", "http://x.y", "end \\",
+              # characters str.splitlines() treats as line ends but Markdown does not (FF is left out: marko itself turns it into LF)
+              "sep\u2028arator", "nel\x85here", "vt\x0btab fs\x1cx"]
 ALERTS = ["NOTE", "TIP", "IMPORTANT", "WARNING", "CAUTION"]
 
 
